@@ -1,5 +1,8 @@
 use crate::streaming::users::user::User;
+#[cfg(not(kani))]
 use ahash::{AHashMap, AHashSet};
+#[cfg(kani)]
+use iggy::verif_model::map::{AHashMap, AHashSet};
 use iggy::models::permissions::{GlobalPermissions, Permissions, StreamPermissions};
 use iggy::models::user_info::UserId;
 
